@@ -174,6 +174,8 @@ func run(c *vkit.Collector, rng *vkit.Rng, budget int) {
 		searchTessellation(c, rng, budget, o)
 	}
 	searchRoundTrip(c, rng, budget, o)
+	searchPoles(c, rng, budget, o)
+	corrMercator(c, rng, budget)
 	searchSubsample(c, rng, budget, o)
 	searchSnap(c, rng, budget, o)
 	// high-precision decision on every queued candidate
@@ -245,6 +247,54 @@ func corrProjections(c *vkit.Collector, rng *vkit.Rng, budget int) {
 			b = r2.Point{X: a.X + rng.Pick([]float64{0.5, -0.5, 1.5, 1}) * w.X, Y: a.Y + rng.Pick([]float64{0.5, -0.5, 1}) * w.Y}
 		}
 		c.Check("wrapDestination "+key, vkit.App("r2_Point_eqbits", vkit.App("wrapDestination", r2Term(w), r2Term(a), r2Term(b)), r2Term(s2.VerifC20WrapDestination(a, b, w))))
+	}
+}
+
+// Mercator [T]: math.Log / math.Exp are amd64 assembly without a model, so the one value each call produces is
+// recomputed here exactly as the Go code does and handed to the model as a constant function; everything
+// else (Sin, Asin, Remainder, the overflow branch, the multiplications) is bit-exact model against code.
+func corrMercator(c *vkit.Collector, rng *vkit.Rng, budget int) {
+	for k := 0; k < 60*budget; k++ {
+		scale := rng.Pick([]float64{180, math.Pi, 1e6, 1, math.Ldexp(1, 30)})
+		if rng.Intn(3) == 0 {
+			scale = pickScale(rng)
+		}
+		pr := s2.NewMercatorProjection(scale)
+		toRad := math.Pi / scale
+		mT := vkit.App("new_plate_carree", vkit.F(scale))
+		var y float64
+		switch rng.Intn(6) {
+		case 0:
+			y = rng.Pick([]float64{math.Inf(1), math.Inf(-1), math.MaxFloat64, -1e300})
+		case 1:
+			y = rng.Pick([]float64{354.8, 354.9, 355, 400, -372, -373, -400, 18.5, 37}) * scale / math.Pi
+		case 2:
+			y = rng.Pick([]float64{0, math.Copysign(0, -1), 1e-300, -1e-17}) * scale
+		default:
+			y = scale * rng.Range(-3, 3)
+		}
+		pt := r2.Point{X: scale * rng.Range(-3, 3), Y: y}
+		kk := math.Exp(2 * toRad * pt.Y)
+		ll := pr.ToLatLng(pt)
+		c.Class(map[bool]string{true: "mercator:exp-overflow/underflow", false: "mercator:finite"}[math.IsInf(kk, 0) || kk == 0])
+		c.Eval(fmt.Sprintf("merc.ToLatLng:%x:%x", math.Float64bits(scale), math.Float64bits(pt.Y)), true)
+		c.Check(fmt.Sprintf("merc.ToLatLng scale=%g y=%g", scale, pt.Y), vkit.App("s2_LatLng_eqbits",
+			vkit.App("merc_ToLatLng", fmt.Sprintf("(fun _ => %s)", vkit.F(kk)), mT, r2Term(pt)),
+			vkit.App("mk_s2_LatLng", vkit.F(float64(ll.Lat)), vkit.F(float64(ll.Lng)))))
+		u := pr.Unproject(pt)
+		c.Check(fmt.Sprintf("merc.Unproject scale=%g y=%g", scale, pt.Y), vkit.App("s2_Point_eqbits",
+			vkit.App("proj_unproject", vkit.App("merc_projection", "(fun x => x)", fmt.Sprintf("(fun _ => %s)", vkit.F(kk)), mT), r2Term(pt)), ptTerm(u)))
+		// FromLatLng, incl. the poles (log of +Inf and of 0)
+		lat := rng.Range(-math.Pi/2, math.Pi/2)
+		if rng.Intn(3) == 0 {
+			lat = rng.Pick([]float64{math.Pi / 2, -math.Pi / 2, vkit.Ulps(math.Pi/2, -1), 1.5707963, 0, -1.57079632679})
+		}
+		in := s2.LatLng{Lat: s1.Angle(lat), Lng: s1.Angle(rng.Range(-math.Pi, math.Pi))}
+		sinPhi := math.Sin(lat)
+		lg := math.Log((1 + sinPhi) / (1 - sinPhi))
+		q := pr.FromLatLng(in)
+		c.Check(fmt.Sprintf("merc.FromLatLng scale=%g lat=%g", scale, lat), vkit.App("r2_Point_eqbits",
+			vkit.App("merc_FromLatLng", fmt.Sprintf("(fun _ => %s)", vkit.F(lg)), mT, vkit.App("mk_s2_LatLng", vkit.F(lat), vkit.F(float64(in.Lng)))), r2Term(q)))
 	}
 }
 
